@@ -133,7 +133,7 @@ def run(ctx):
                 found_classes[c] += 1
 
     # ---- Table.Sort driven directly
-    sorts = T.htable(["-mode", "sort", "-n", 500 * mult, "-seed", seed])
+    sorts = T.htable(["-mode", "sort", "-n", 300 * mult, "-seed", seed])
     codes = T.coq_verdicts(ctx, "c12_sort", [sort_item(c) for c in sorts])
     dist = collections.Counter()
     for c, v in zip(sorts, codes):
@@ -165,8 +165,8 @@ def run(ctx):
         if good and c["outcome"] != "ok":
             ctx.violation({"kind": "valid LIMIT rejected", "case": c})
     # ---- end to end
-    e2e = T.htable(["-mode", "e2e12", "-n", 250 * mult, "-seed", seed])
-    ecodes = T.coq_verdicts(ctx, "c12_e2e", [e2e_item(c) for c in e2e], shard=250)
+    e2e = T.htable(["-mode", "e2e12", "-n", 150 * mult, "-seed", seed])
+    ecodes = T.coq_verdicts(ctx, "c12_e2e", [e2e_item(c) for c in e2e], shard=300)
     bad_outcomes = 0
     for c, v in zip(e2e, ecodes):
         dist["e2e:%s:%s:%d" % (c["shape"], c["res"]["outcome"], v)] += 1
